@@ -193,7 +193,7 @@ func c16Class(w, shWant, bashGot string) string {
 			return "dotdot-braces-around-nested-sequence"
 		}
 	}
-	if c16ReopenRx.MatchString(w) && shWant == "0:<"+unescapePattern(w)+">" {
+	if c16ReopenRx.MatchString(w) && shWant == "0:<"+c16Unescape(w)+">" {
 		// bash keeps looking for a later "}" after a group without a comma,
 		// e.g. {a},} gives "a}"; sh leaves the word literal
 		return "close-brace-after-commaless-group"
@@ -350,7 +350,7 @@ func c16Collected(c *vc.Ctx, key, src string, w *syntax.Word, fields []string, f
 	// quote removal and removal of empty words, as Fields (and bash) do after
 	// brace expansion; the words hold only literal characters and backslashes
 	for _, t := range bracesTexts {
-		if u := unescapePattern(t); u != "" {
+		if u := c16Unescape(t); u != "" {
 			lits = append(lits, u)
 		}
 	}
